@@ -58,8 +58,9 @@ theorem choose_never_panics (T : Tests) (P : Params) (s : Store) (tries : Int)
     (hk : (s.utxos.map opKey).Nodup) : chooseUtxos T P s tries ≠ .panic :=
   chooseUtxos_no_panic T P s tries hk
 
-/-- Over every history of deposits and withdrawals (any parameters, any float answers, failed withdrawals included):
-    if the outpoints initially unspent and the outpoints deposited later are pairwise different, then no outpoint is
+/-- Over every history of deposits, withdrawals and completed signature rounds (any parameters, any float answers,
+    failed withdrawals and failed rounds included): if the outpoints initially unspent and the outpoints entering
+    later (deposits and the change outputs of signed withdrawals) are pairwise different, then no outpoint is
     ever selected twice — neither inside one withdrawal nor by two different withdrawals — and nothing selected is
     still in the unspent record at the end. -/
 theorem never_reselected (s : Store) (evs : List Ev)
@@ -67,6 +68,19 @@ theorem never_reselected (s : Store) (evs : List Ev)
     (((runHist s evs).2.flatten ++ (runHist s evs).1.utxos).map opKey).Nodup := by
   have := histInv_run evs (s, []) (by simpa [HistInv] using h)
   simpa [HistInv, runHist] using this
+
+/-- MultiSign bookkeeping: only the call that completes the required number of signatures touches the records (every
+    other outcome, `pending` included, carries no store); it appends exactly the outputs of the signed transaction
+    that pay the multisig (the change output, and the payment output of a self-payment) to the unspent record and
+    deletes from the spent record one entry per input, with that input's outpoint. A key cannot sign twice. -/
+theorem signing_moves_exactly (required : Nat) (s s' : Store) (p p' : Pending) (signer : Nat) (sigOK : Bool)
+    (mk : Nat → Nat → Utxo) (h : multiSign required s p signer sigOK mk = .final p' s') :
+    sigOK = true ∧ signer ∉ p.signers ∧ p'.signers.length = required ∧
+      s'.utxos = s.utxos ++ newUtxos mk p.outs ∧
+      ∃ removed : List Utxo, s.stxos.Perm (removed ++ s'.stxos) ∧
+        removed.map (fun u => (u.hash, u.index)) = p.inputs.map (fun u => (u.hash, u.index)) := by
+  obtain ⟨a, b, _, d, e, f⟩ := multiSign_final_spec required s s' p p' signer sigOK mk h
+  exact ⟨a, b, d, e, f⟩
 
 /-- The change output `sum - amount` of makeBtcTx is never negative for a selection returned by chooseUtxos. -/
 theorem change_nonneg (T : Tests) (P : Params) (s s' : Store) (tries : Int) (a : Answer)
